@@ -164,7 +164,7 @@ class CWriter:
         return None
 
 
-class CLog:
+class CLog(C.LogBase):
     """logger stand-in.  `exception()` is how the library reports a swallowed exception: inside
     `_process_message` it is the effect C=kind; in the outermost handler of a library task it ends the
     task's iteration (R=kind)."""
@@ -179,7 +179,7 @@ class CLog:
 
     def exception(self, msg, *a, **k):
         kind = S.exc_kind(sys.exc_info()[0])
-        if str(msg).startswith("heartbeat_timer()") or str(msg).startswith("socket_read_task"):
+        if C.log_origin() == "task":
             raise S._Abort(kind)
         self.m.eff.append(("C", kind))
 
@@ -206,7 +206,7 @@ class NWriter:
         return None
 
 
-class NLog:
+class NLog(C.LogBase):
     def __init__(self, machine):
         self.m = machine
 
